@@ -392,9 +392,15 @@ def e2e_eval(case, verbose=False):
         for e in evs:
             if e["ph"] == "B":
                 src[(e.get("attr") or e.get("args"))["uid"]] = fn
+    # the statement compares "the same run without the option": vary the OTHER switches of that run (derived from
+    # the case so that it replays identically); some of them register further stages around the two comm stages
+    from lib.core import REPO as _REPO
+    nslices = sum(1 for evs in files.values() for e in evs if e["ph"] == "B")
+    extra = [[], [], ["-c", str(_REPO / "tests/test_data/sample_comp_log_ideal.txt")], ["--keep_prep"], ["-t"],
+             ["--drop_globals"], ["-c", str(_REPO / "tests/test_data/sample_comp_log_ideal.txt"), "-t"]][(nslices + len(files)) % 7]
     with contextlib.redirect_stdout(io.StringIO()):
-        r0 = stage.e2e(["--freq", "512"], files)
-        r1 = stage.e2e(["--freq", "512", "--comm_summarize_seq"], files)
+        r0 = stage.e2e(["--freq", "512", *extra], files)
+        r1 = stage.e2e(["--freq", "512", "--comm_summarize_seq", *extra], files)
     for tag, r in (("reference", r0), ("--comm_summarize_seq", r1)):
         if r["rc"] != 0 or r["events"] is None:
             return ("comm-crash", f"acelyzer {tag} failed: rc={r['rc']} {r['error']}"), {}
